@@ -150,8 +150,12 @@ def replay_candidate(modname, cand, scratch_dir, timeout=120):
     with tempfile.NamedTemporaryFile("w", suffix=".json", delete=False) as f:
         json.dump(cand, f, default=_json_default)
         cpath = f.name
+    # temporary files of the replay live in a directory of ours, removed even when the real library
+    # kills the interpreter
+    tdir = tempfile.mkdtemp(prefix="vf-replay-tmp-")
     try:
         env = dict(os.environ)
+        env["TMPDIR"] = tdir
         env["PYTHONPATH"] = scratch_dir + os.pathsep + VERIF
         env["VERIF_REPLAY_TARGET"] = scratch_dir
         p = subprocess.run([sys.executable, "-m", "vf.replay_child", modname, cpath],
@@ -172,6 +176,7 @@ def replay_candidate(modname, cand, scratch_dir, timeout=120):
         return {"reproduced": False, "what": "replay timed out", "key": None, "crashed": True}
     finally:
         os.unlink(cpath)
+        shutil.rmtree(tdir, ignore_errors=True)
 
 
 def _json_default(o):
